@@ -202,6 +202,17 @@ int main() {
         double t0 = s.Get_t(); uint64_t d0 = s.state_digest();
         for (int k = 0; k < n; k++) { std::string kind; double v; in >> kind >> v; if (kind == "h") s.Set_h(v); else if (kind == "hmin") s.Set_h_min(v); else s.Set_h_max(v); }
         printf("STEPCTL %.17g %.17g %.17g %d\n", s.Get_h(), s.Get_h_min(), s.Get_h_max(), (s.Get_t() == t0 && s.state_digest() == d0) ? 1 : 0);
+      } else if (cmd == "CTL") {       // CTL o kind value : one step-size setter (module StepCtl with Evolve)
+        std::string kind; double v; in >> o >> kind >> v; TestSolver& s = S(o - 1);
+        if (kind == "h") s.Set_h(v); else if (kind == "hmin") s.Set_h_min(v); else if (kind == "hmax") s.Set_h_max(v); else throw std::runtime_error("bad kind");
+      } else if (cmd == "EVOLVEX") {   // EVOLVEX o dt : Evolve over a (dyadic) fraction of a tick; reports whether GSL refused
+        double dt; in >> o >> dt; TestSolver& s = S(o - 1);
+        bool threw = false;
+        try { s.Evolve(dt); } catch (std::exception& e) { threw = true; }
+        flush_rhs(); calls.clear();
+        printf("EVOLVEX %d\n", threw ? 1 : 0);
+      } else if (cmd == "GETCTL") { in >> o; TestSolver& s = S(o - 1);
+        printf("GETCTL %.17g %.17g %.17g %.17g\n", s.Get_h(), s.Get_h_min(), s.Get_h_max(), s.Get_t());
       } else if (cmd == "TDEP") { int b; in >> o >> b; S(o - 1).tdep = b;
       } else if (cmd == "HMIN") { double x; in >> o >> x; S(o - 1).Set_h_min(x);
       } else if (cmd == "SCALE") { int e2; in >> o >> e2; S(o - 1).scale_state(std::ldexp(1.0, e2));
